@@ -9,9 +9,13 @@ from hypothesis import strategies as st
 
 from vlib import isolate
 
+import beartype  # noqa: F401  pre-imported (not used) so that forked children do not pay the import cost
+import beartype.claw  # noqa: F401
+import beartype.claw._package.clawpkgtrie  # noqa: F401
+
 PID = 'C06'
 LEVEL = 'exploration'
-BUDGET = {'quick': 700, 'thorough': 30000}
+BUDGET = {'quick': 500, 'thorough': 30000}
 CAP_S = {'quick': 200, 'thorough': 3000}
 MAX_SHARDS = 3
 RULE = ('case = history of <= 14 (quick) / 30 (thorough) operations among beartype_all(conf), beartype_package(name, conf), '
